@@ -12,6 +12,8 @@ from . import c04
 
 def check_diff_T(sc):
     out = Out()
+    if sc["model"] == "homog":
+        return _check_homog_T(sc, out)
     so = sys.stdout
     sys.stdout = io.StringIO()
     try:
@@ -47,10 +49,57 @@ def check_diff_T(sc):
     return out
 
 
+def _check_homog_T(sc, out):
+    """Homogenization model: the temperatures handed to the mobility/chemical-potential provider (replaced by a logging synthetic one)."""
+    import kawin.diffusion.Homogenization as HM
+    orig = HM.computeHomogenizationFunction
+    inner = HD.synthetic_homogenization(len(sc["elements"]), sc["M0"], sc["Qm"])
+    calls = []
+
+    def provider(therm, x, T, params, hashTable=None):
+        calls.append(np.array(T, dtype=float).copy())
+        return inner(therm, x, T, params, hashTable)
+    HM.computeHomogenizationFunction = provider
+    so = sys.stdout
+    sys.stdout = io.StringIO()
+    try:
+        m, therm = HD.build(sc)
+        it = HD.CapIter(sc["iterator"], sc["cap"])
+        try:
+            for dur in sc["durations"]:
+                m.solve(dur, solverType=it, minDtFrac=1e-10)
+        except HD.StepCap:
+            pass
+        except ValueError as e:
+            if "zero-size array" not in str(e):
+                raise
+            # a uniform closed system has no flux at all: the homogenization model cannot derive a time step from it - outside the admissible domain (see C04)
+            out.label("uniform_closed_homogenization_skipped")
+            return out
+    finally:
+        sys.stdout = so
+        HM.computeHomogenizationFunction = orig
+    Tfn = HD.temperature_fn(sc["T"])
+    stage_times = [t for st_ in it.stage_times for t in st_]
+    if len(calls) != len(stage_times):
+        out.fail("backend_call_count", "homogenization model: %d provider calls for %d stage evaluations" % (len(calls), len(stage_times)))
+        return out
+    for k, ts in enumerate(stage_times):
+        exp = np.asarray(Tfn(m.z, ts), dtype=float)
+        if calls[k].shape != exp.shape or not np.array_equal(calls[k], exp):
+            i = int(np.argmax(calls[k] != exp)) if calls[k].shape == exp.shape else 0
+            out.fail("backend_temperature", "homogenization model, stage %d at t=%r node %d: provider asked for T=%r, schedule gives %r" % (k, ts, i, calls[k].ravel()[i] if calls[k].size else None, exp[i]))
+            break
+    out.label("T_" + sc["T"][0], sc["iterator"], "homogenization")
+    out.nt(sc["T"][0] != "const" and len(stage_times) >= 3)
+    return out
+
+
 @st.composite
 def _sc(draw):
     sc = draw(c04._scenario(cap=40))
-    sc["model"] = "single"
+    if sc["model"] != "homog" or "M0" not in sc:
+        sc["model"] = "single"
     if sc["T"][0] == "const" and draw(st.integers(0, 3)) > 0:
         T0 = sc["T"][1]
         total = sum(sc["durations"])
@@ -62,5 +111,5 @@ def _sc(draw):
 def clauses():
     return [
         Clause("diffusion_T", _sc, check_diff_T, quick=600, thorough=15000, shrink=False,
-               rule="generator: single-phase stub diffusion scenarios with constant / break-point / field T(z,t) schedules, cache off, both iterators; every backend call is compared with the schedule at the recorded stage time and node coordinate (exact); non-trivial: non-constant schedule and >= 3 stage evaluations"),
+               rule="generator: single-phase (2 in 3) and homogenization stub diffusion scenarios with constant / break-point / field T(z,t) schedules, cache off, both iterators; every backend call is compared with the schedule at the recorded stage time and node coordinate (exact); non-trivial: non-constant schedule and >= 3 stage evaluations"),
     ]
